@@ -712,13 +712,6 @@ def run(ck):
         sqltext.run_logql(ck, n_quick=400, n_thorough=20000)
         if hasattr(sqltext, "run_logql_metric"):
             sqltext.run_logql_metric(ck, n_quick=300, n_thorough=15000)
-    if not ck.replay and not ck.quick():
-        # the Prometheus / Pyroscope selector theorems are about PromSel.v / ProfSel.v: C17's byte-exact correspondence
-        try:
-            from checks import promsel
-            promsel.run(ck)
-        except ImportError:
-            pass
     if not ck.replay:
         static_date_sites(ck)
         run_spandate(ck)
